@@ -25,7 +25,7 @@ THEOREM_CLASSES = {
     "C19_small_block_disjoint_from_big": "corollary", "C19_big_blocks_disjoint": "corollary",
     "C19_combined_history_small_medium": "main", "C19_combined_empty": "corollary", "C19_huge_guard_needed": "refutation",
     "C19_combined_supply_failed_only_without_supply": "main", "C19_combined_fresh_mapping_is_supply": "corollary",
-    "C19_combined_history_no_bad_call": "main", "C19_combined_ghost_empty": "corollary",
+    "C19_combined_history_no_bad_call": "main", "C19_combined_free_never_fails": "main", "C19_combined_ghost_empty": "corollary",
     "C19_combined_projects_to_lalloc": "main", "C19_combined_history_ownership": "corollary",
     "C19_span_layer_supplies_accepted_span": "corollary", "C19_heap_allocate_not_refused_partial": "corollary", "C19_contents_preserved": "main",
 }
@@ -33,13 +33,13 @@ UNPROVED = [
     "'pairwise disjoint while live' as ONE statement over L_alloc histories: proved in three pieces - within a class over any alloc/free history (C19_span_machine_history), across classes and against large/huge blocks from the ownership invariant over any l_alloc history (C19_lalloc_history_ownership + corollaries), geometry (C19_blocks_disjoint) - but the glue 'the class-level live list is the projection of the heap-level live list' is not proved, so no single theorem quantifies over mixed histories with a ghost set of live blocks",
     "'contents preserved across reallocation': C19_contents_preserved is about an abstract memory and one memcpy; that l_alloc performs exactly this copy (and the in-place case writes nothing) is read from the code, the fill patterns of the harness test it",
     "'returns all memory to the OS when finalized': proved for the span-layer MODEL (C19_finalize_unmaps_everything); the model follows srpmalloc.c operation by operation on the span-snapshot streams (state read from the allocator's caches, reserve, class lists and span headers after every call), but rpmalloc_finalize itself is compared only through the map/unmap balance, not replayed",
-    "the combined heap + span-layer machine (cstep/crun: spans served by the span-layer model, no oracle) covers SMALL/MEDIUM allocations and frees only. Over every such history: coupling invariant preserved and never CErrOracle (C19_combined_history_small_medium); CSupplyFailed on an allocation only when the history names a supply the span layer does not have, and a fresh non-overlapping mapping always is one - i.e. only when the OS has no room (C19_combined_supply_failed_only_without_supply, C19_combined_fresh_mapping_is_supply); never CBadCall when every free names a block that is live at that point - per-class class_inv against ghost live lists, a repeated free is outside the hypothesis (C19_combined_history_no_bad_call); every successful history is the lrun history of the corresponding L_alloc calls, so C19_lalloc_history_ownership applies to it (C19_combined_projects_to_lalloc, C19_combined_history_ownership). Still open there: these are four theorems with separate hypotheses (cinv / supply_ok / linv+hist_ok / op_ok1), not one invariant; CSupplyFailed on a FREE (the span model refusing InUse->Cached) is excluded only by cinv through C19_combined_history_small_medium's preservation, not stated as its own outcome; supply_ok must be assumed per step (the history chooses the supply, the allocator's own order cache > reserve > map is not modelled). Not in the combined machine at all: large and huge requests (multi-span objects, reuse of a cached M-span for N, spans kept as the reserve, huge blocks mapped outside the span layer) and reallocations (in place, and moves, which can change regime) - for those C19_lalloc_history_ownership still excludes an in-use span by construction (CErrOracle -> lrun = None) and C19_heap_allocate_not_refused_partial (a one-step corollary, not a history theorem) gives the one-step argument. All three models are run against srpmalloc.c operation by operation: the oracle-driven heap model on the block trace, the span model on span-layer snapshots, and the extracted combined machine on small/medium alloc/free histories (its answers and its whole span component after every change must equal the allocator's); the span-layer invariant is evaluated on the allocator's own state after every operation",
+    "the combined heap + span-layer machine (cstep/crun: spans served by the span-layer model, no oracle) covers SMALL/MEDIUM allocations and frees only. Over every such history: coupling invariant preserved and never CErrOracle (C19_combined_history_small_medium); CSupplyFailed on an allocation only when the history names a supply the span layer does not have, and a fresh non-overlapping mapping always is one - i.e. only when the OS has no room (C19_combined_supply_failed_only_without_supply, C19_combined_fresh_mapping_is_supply); never CBadCall when every free names a block that is live at that point - per-class class_inv against ghost live lists, a repeated free is outside the hypothesis (C19_combined_history_no_bad_call); every successful history is the lrun history of the corresponding L_alloc calls, so C19_lalloc_history_ownership applies to it (C19_combined_projects_to_lalloc, C19_combined_history_ownership). Still open there: these are four theorems with separate hypotheses (cinv / supply_ok / linv+hist_ok / op_ok1), not one invariant; a FREE of a live block from a state satisfying cinv and linv is answered CDone - never CSupplyFailed, CBadCall or CRefusedByHeap - with both invariants preserved (C19_combined_free_never_fails), but cinv and linv are still two invariants carried side by side and no single history theorem maintains both; supply_ok must be assumed per step (the history chooses the supply, the allocator's own order cache > reserve > map is not modelled). Not in the combined machine at all: large and huge requests (multi-span objects, reuse of a cached M-span for N, spans kept as the reserve, huge blocks mapped outside the span layer) and reallocations (in place, and moves, which can change regime) - for those C19_lalloc_history_ownership still excludes an in-use span by construction (CErrOracle -> lrun = None) and C19_heap_allocate_not_refused_partial (a one-step corollary, not a history theorem) gives the one-step argument. All three models are run against srpmalloc.c operation by operation: the oracle-driven heap model on the block trace, the span model on span-layer snapshots, and the extracted combined machine on small/medium alloc/free histories (its answers and its whole span component after every change must equal the allocator's); the span-layer invariant is evaluated on the allocator's own state after every operation",
     "span caches' size limits and reuse order; the global reserve (unused when span_map_count <= heap_reserve_count and page size <= span size)",
     "the OS returning span-aligned, non-overlapping mappings (checked at run time by the map hook)",
     "multi-threading / deferred frees (the interpreter is single threaded)",
 ]
 MANIFEST_ENTRY = {
-    "text": "proof, partial: theorems cover, for the model of srpmalloc.c as L_alloc uses it, 16-byte alignment and containment of every block, usable size >= requested in all four regimes and across realloc (every 64-bit size), the per-class span machine over any alloc/free history (partition of indices, no double hand-out, exact used_count), span ownership over any history of L_alloc calls (different classes / large / huge blocks never share a span), the span layer over any history (no overlap across cache reuse, finalize unmaps every region; this model is replayed against the allocator's span bookkeeping operation by operation), the combined heap + span-layer machine for small/medium allocations and frees (no oracle: a span is never handed out twice; supply failure only when the OS has no room; no internal error when every free names a live block; projects onto the L_alloc history machine; the extracted machine is replayed against the allocator), one-step acceptance of span-layer spans for large/huge and the copy performed by a moving realloc. Not one end-to-end theorem: the pieces are joined by stated glue (UNPROVED); content preservation and return of memory in the real allocator rest on the C harness (fill patterns, map/unmap balance).",
+    "text": "proof, partial: theorems cover, for the model of srpmalloc.c as L_alloc uses it, 16-byte alignment and containment of every block, usable size >= requested in all four regimes and across realloc (every 64-bit size), the per-class span machine over any alloc/free history (partition of indices, no double hand-out, exact used_count), span ownership over any history of L_alloc calls (different classes / large / huge blocks never share a span), the span layer over any history (no overlap across cache reuse, finalize unmaps every region; this model is replayed against the allocator's span bookkeeping operation by operation), the combined heap + span-layer machine for small/medium allocations and frees (no oracle: a span is never handed out twice; supply failure only when the OS has no room; no internal error when every free names a live block; a free of a live block never fails; projects onto the L_alloc history machine; the extracted machine is replayed against the allocator), one-step acceptance of span-layer spans for large/huge and the copy performed by a moving realloc. Not one end-to-end theorem: the pieces are joined by stated glue (UNPROVED); content preservation and return of memory in the real allocator rest on the C harness (fill patterns, map/unmap balance).",
     "note": "trusted: Coq kernel, hand-written models of srpmalloc.c (tied by regenerated #defines/guards, by op-by-op trace correspondence of the heap model against the real allocator, and by observable consequences for the span layer), extraction, C harness (includes srpmalloc.c and the text of L_alloc from lua.c), gcc/clang+ASan/UBSan; assumes span-aligned non-overlapping OS mappings, single thread; reads src/lua/lua.c and the Makefile besides srpmalloc.c",
     "technique": "machine-checked proof in Coq over executable models + regenerated parameters + extracted-model/implementation trace correspondence; shadow-map property oracle in C",
 }
